@@ -8,7 +8,7 @@ coq/Props/C10.v."""
 from harness.props import _meta
 
 PROP, NUM = 'C10', 10
-SOURCES = _meta.available(['C01', 'C02', 'C03', 'C04', 'C05', 'C06', 'C07', 'C08', 'C09', 'C14', 'C16', 'C17', 'C19'])
+SOURCES = _meta.available(['C01', 'C02', 'C03', 'C04', 'C05', 'C06', 'C07', 'C08', 'C09', 'C14', 'C16', 'C17', 'C19', 'C21'])
 PROPS_FILES = ['Props/C10.v'] + _meta.props_files(SOURCES)
 MODES = ['nojit', 'bounds']
 MODES_THOROUGH = ['nojit', 'bounds']
@@ -21,12 +21,14 @@ RULE = ('every k-th case of the exhaustive small-scope + random generators of %s
         'violation. Non-trivial by the source property\'s own rule.' % ', '.join(SOURCES))
 EXHAUSTIVE = {'quick': False, 'thorough': False}
 TRUSTED = ['numba bounds checking and numpy index checking are the oracle for "out of bounds" at run time',
-           'kernels listed as not modelled in DESIGN §5.C10 (chunks, ordered_get_last_as_filter, streaming_sort_partial, '
-           'deprecated *_old helpers outside C19) are covered by the bounds-checked runs of the callers only']
+           'the kernels no other property owns (chunks, ordered_get_last_as_filter, streaming_sort_partial, the result-size '
+           'kernels, ordered_inner_map_left_unique_partial and its driver, data_iterator, ...) are modelled in '
+           'Model/MiscKernels.v and proved in Props/C10_kernels.v (auxiliary source C21); merge_entries_segment '
+           '(interpreted, no caller, no contract) is the only loop helper of operations.py without a model']
 ASSUMPTIONS = ['valid input = an input inside the source property\'s quantifier; malformed inputs are compared '
                'model-vs-implementation only (IndexError == model OOB)']
 BUDGET = {'quick': {'*': 2500, 'C03': 12000, 'C04': 8000, 'C08': 8000, 'C16': 6000, 'C14': 5000, 'C09': 3000,
-                    'C01': 1200, 'C05': 2500, 'C06': 2500, 'C17': 1200},
+                    'C01': 1200, 'C05': 2500, 'C06': 2500, 'C17': 1200, 'C21': 8000},
           'thorough': {'*': 20000, 'C03': 120000, 'C04': 80000, 'C08': 80000, 'C16': 60000, 'C14': 50000}}
 
 
